@@ -122,15 +122,18 @@ _vbi_pfc_demux_decode		(vbi_pfc_demux *	dx,
 
 			if ((int) dx->block.application_id < 0) {
 				int sh; /* structure header */
+				int sh_lo;
+				int sh_hi;
 
-				sh = vbi_unham16p (dx->block.block)
-					+ vbi_unham16p (dx->block.block + 2)
-					* 256;
+				sh_lo = vbi_unham16p (dx->block.block);
+				sh_hi = vbi_unham16p (dx->block.block + 2);
 
-				if (sh < 0) {
+				if ((sh_lo | sh_hi) < 0) {
 					/* Hamming error. */
 					goto desynced;
 				}
+
+				sh = sh_lo + sh_hi * 256;
 
 				dx->block.application_id = sh & 0x1F;
 				dx->block.block_size = sh >> 5;
@@ -243,8 +246,11 @@ vbi_pfc_demux_feed		(vbi_pfc_demux *	dx,
 			return TRUE;
 		}
 
-		subno = vbi_unham16p (buffer + 4)
-			+ vbi_unham16p (buffer + 6) * 256;
+		subno = vbi_unham16p (buffer + 4);
+		if (subno < 0)
+			goto desynced;
+
+		subno |= vbi_unham16p (buffer + 6) * 256;
 		if (subno < 0)
 			goto desynced;
 
